@@ -158,6 +158,10 @@ def corpus():
     out.append(_case(n, s, [_rev([], [f(1, 0, 0)], authors=[8, 9])]))
     out.append(_case(n, s, [_rev([], [f(1, 0, 0)], authors=[8, 9])], plain=0, props=0))
     out.append(_case(n, s, [_rev([], [f(1, 0, 0)], committer=10)]))
+    # the last file below nested directories is deleted: the importer must prune d/e and then d
+    out.append(_case(n, s, [_rev([], [d(1, 0, 3), d(2, 1, 4), f(3, 2, 0), f(4, 0, 1)]), _rev([0], [f(4, 0, 1)])]))
+    out.append(_case(n, s, [_rev([], [d(1, 0, 3), d(2, 1, 4), f(3, 2, 0), f(4, 0, 1)]),
+                            _rev([0], [f(3, 0, 0), f(4, 0, 1)])]))
     return out
 
 
@@ -180,7 +184,8 @@ def cases(rng, tier):
         c = G.gen_case(rng, plain=1 if rng.random() < 0.85 else 0)
         c["props"] = 1
         yield c
-    for focus in ["rename", "move", "swap", "chain", "dirrename", "kind", "replace", "moveout", "remove"]:
+    for focus in ["rename", "move", "swap", "chain", "dirrename", "kind", "replace", "moveout", "remove", "nest",
+                  "emptyout"]:
         for _ in range(n_focus):
             c = G.gen_case(rng, n=rng.choice([2, 3]), focus=focus, plain=1, nasty=0.0)
             c["props"] = 1
@@ -324,7 +329,9 @@ def _classes(case, obs):
         want = R.src_tree(case, r)
         got = [[p, str(m), dat] for p, m, dat in tree]
         if got != want:
-            if got == M.leaf_tree(want):
+            # only directories without any file or symlink below them are missing -> "emptydir"
+            keep = M.leaf_tree(want)
+            if all(t in want for t in got) and all(t in got for t in keep):
                 bad.add("emptydir")
             else:
                 bad.add("tree")
